@@ -217,12 +217,25 @@ def _grid(case, lay):
     shape, nprocs, layouts, dtype = cfg["shape"], cfg["nprocs"], cfg["layouts"], cfg["dtype"]
     if dtype not in ("float", "complex"):
         dtype = "float"
+    swap_groups = None
+    if case["seed"] % 4 == 3:
+        # a grid managed by a LayoutSwapper (the potential's layouts in the driver): two layouts share one ordering on different
+        # process grids, and the layouts are visited in a seeded order
+        p0, p1 = rng.choice([(2, 2), (1, 2), (2, 3), (3, 2), (1, 3), (2, 1), (1, 1)])
+        nprocs = [p0, p1]
+        shape = [p0 + rng.randint(0, 5), p0 + rng.randint(0, 5), p1 + rng.randint(0, 5)]
+        swap_groups = [{'v_parallel_2d': [0, 2, 1], 'mode_solve': [1, 2, 0]}, {'v_parallel_1d': [0, 2, 1]}, {'poloidal': [2, 1, 0]}]
+        layouts = {k: v for g_ in swap_groups for k, v in g_.items()}
+        order_ = list(layouts)
+        rng.shuffle(order_)
+        layouts = {k: layouts[k] for k in order_}
+        cfg = {"shape": shape, "nprocs": nprocs, "layouts": layouts, "dtype": dtype, "swapper": True}
     P = int(np.prod(nprocs))
     nd = len(shape)
     G = lo.unique_global(shape, dtype)
     eta = [np.sort(np.random.RandomState(case["seed"] % (1 << 31) + d).uniform(-3, 3, n)) for d, n in enumerate(shape)]
     names = list(layouts.keys())
-    base = "%s/%s" % (grid_pattern(nprocs), "even" if is_even(cfg) else "uneven")
+    base = "%s/%s" % (grid_pattern(nprocs), "even" if is_even(cfg) else "uneven") if swap_groups is None else "swapper-managed/%dx%d" % tuple(nprocs)
     pick_seed = case["seed"] ^ 0xabcdef
 
     def prog(rank):
@@ -230,7 +243,10 @@ def _grid(case, lay):
         warnings.simplefilter("ignore")
         comm = MPI.COMM_WORLD
         try:
-            h = lay.getLayoutHandler(comm, dict(layouts), list(nprocs), eta)
+            if swap_groups is not None:
+                h = lay.LayoutSwapper(comm, [dict(g_) for g_ in swap_groups], [list(nprocs), nprocs[0], nprocs[1]], eta, names[0])
+            else:
+                h = lay.getLayoutHandler(comm, dict(layouts), list(nprocs), eta)
         except RuntimeError as e:
             return {"refused": str(e)}
         out = {"bad": [], "ev": {}, "cls": set()}
